@@ -354,7 +354,7 @@ func (a *sideEffectActor) PostOutbox(c context.Context, activity Activity, outbo
 		if err = res.Resolve(c, activity); err != nil && !streams.IsUnmatchedErr(err) {
 			return
 		} else if streams.IsUnmatchedErr(err) {
-			deliverable = true
+			deliverable = !undeliverable
 			err = a.c2s.DefaultCallback(c, activity)
 			if err != nil {
 				return
